@@ -24,17 +24,20 @@ type Env struct {
 	nextTx  func() common.TransactionLocation
 	nextScr func() common.ScriptLocation
 	uuid    uint64
+	// AccountIDs is the per-account id counter (GenerateAccountID); rolled back with a failed transaction
+	AccountIDs map[common.Address]uint64
 	// CodeWrites counts host code updates/removals per execution (including those later discarded)
 	CodeWrites int
 }
 
 func NewEnv() *Env {
 	return &Env{
-		Ledger:  NewTestLedger(nil, nil),
-		Codes:   map[common.AddressLocation][]byte{},
-		Limit:   200000,
-		nextTx:  NewTransactionLocationGenerator(),
-		nextScr: NewScriptLocationGenerator(),
+		Ledger:     NewTestLedger(nil, nil),
+		Codes:      map[common.AddressLocation][]byte{},
+		Limit:      200000,
+		AccountIDs: map[common.Address]uint64{},
+		nextTx:     NewTransactionLocationGenerator(),
+		nextScr:    NewScriptLocationGenerator(),
 	}
 }
 
@@ -78,6 +81,10 @@ func (e *Env) iface(out *cdc.Outcome) *TestRuntimeInterface {
 			return nil
 		},
 		OnGenerateUUID: func() (uint64, error) { e.uuid++; return e.uuid, nil },
+		OnGenerateAccountID: func(a common.Address) (uint64, error) {
+			e.AccountIDs[a]++
+			return e.AccountIDs[a], nil
+		},
 	}
 }
 
@@ -93,6 +100,10 @@ func (e *Env) snapshot() map[common.AddressLocation][]byte {
 func (e *Env) Tx(src string, useVM bool) (out *cdc.Outcome) {
 	out = &cdc.Outcome{}
 	saved := e.snapshot()
+	savedIDs := map[common.Address]uint64{}
+	for k, v := range e.AccountIDs {
+		savedIDs[k] = v
+	}
 	defer func() {
 		if r := recover(); r != nil {
 			out.Err = fmt.Errorf("escaped panic: %v", r)
@@ -100,6 +111,7 @@ func (e *Env) Tx(src string, useVM bool) (out *cdc.Outcome) {
 		}
 		if out.Class != "none" {
 			e.Codes = saved
+			e.AccountIDs = savedIDs
 		}
 	}()
 	rt := NewTestRuntime()
